@@ -1,7 +1,298 @@
-//! C09 — not built yet
-use crate::vcore::Tier;
+//! C09 — border pixels show the colour written to the ULA before the beam got there.
+//! E-PROD over write times: one OUT (FE) by the emulated CPU at every T of the frame, all ordered
+//! pairs of OUTs within a line at three line positions, writes around the frame wrap, no write at
+//! all, snapshot border; the completed 320x240 border buffer against RefULA's beam model.
 
-pub fn run(_tier: Tier, _seed: u64, _replay: Option<String>) -> i32 {
-    eprintln!("MACHINERY: check C09 is not built yet");
-    2
+use crate::formats::*;
+use crate::refzx::*;
+use crate::rig::{self, Emu, Opts, RegsView, VAsset};
+use crate::vcore::{par_for_with, Ctx, Tier};
+use rustzx_core::host::Snapshot;
+use serde_json::json;
+
+const IDLE: u16 = 0x9000;
+const OUTC: u16 = 0x9100;
+const W: usize = 320;
+const H: usize = 240;
+
+fn machine(m128: bool) -> Emu {
+    let mut o = Opts::machine(m128);
+    o.sound = false;
+    let mut e = rig::emu_stepping(&o);
+    rig::poke(&mut e, IDLE, &[0xF3, 0x18, 0xFE]);
+    rig::poke(&mut e, OUTC, &[0xED, 0x79, 0xC3, IDLE as u8, (IDLE >> 8) as u8]);
+    let mut r = RegsView::default();
+    r.pc = IDLE;
+    r.sp = 0xBF00;
+    rig::set_regs(e.verif_cpu(), &r);
+    e
+}
+
+/// beam time of border-buffer pixel (x,y): two pixels per T, canvas (0,0) = buffer (32,24) at first_pixel
+fn pixel_t2(sp: &UlaSpec, x: usize, y: usize) -> i64 {
+    // in half T-states to stay integral
+    2 * (sp.first_pixel as i64 + (y as i64 - 24) * sp.line as i64) + (x as i64 - 32)
+}
+
+fn is_border(x: usize, y: usize) -> bool {
+    !(x >= 32 && x < 288 && y >= 24 && y < 216)
+}
+
+/// OUT (C),A at in-frame time `t` (instruction start). Returns (w0, w1): extent of the I/O cycle.
+fn out_at(e: &mut Emu, t: usize, colour: u8) -> (i64, i64) {
+    e.verif_set_frame_clocks(t);
+    let mut r = RegsView::default();
+    r.pc = OUTC;
+    r.sp = 0xBF00;
+    r.bc = 0x00FE;
+    r.af = (colour as u16) << 8;
+    rig::set_regs(e.verif_cpu(), &r);
+    let f0 = e.verif_total_frames();
+    rig::step(e);
+    let end = e.verif_frame_clocks() as i64 + if e.verif_total_frames() > f0 { 1_000_000 } else { 0 };
+    // two 4-T fetches (uncontended code at 9100h), then the port cycle until the instruction ends
+    (t as i64 + 8, end)
+}
+
+fn run_to_frame_end(e: &mut Emu, m128: bool) {
+    let sp = spec(m128);
+    let f = e.verif_total_frames();
+    if (e.verif_frame_clocks() as u64) < sp.frame - 60 {
+        e.verif_set_frame_clocks((sp.frame - 40) as usize);
+    }
+    let mut guard = 0;
+    while e.verif_total_frames() == f {
+        rig::step(e);
+        guard += 1;
+        if guard > 100_000 {
+            eprintln!("MACHINERY: frame never ends");
+            std::process::exit(2);
+        }
+    }
+}
+
+/// establish `colour` as the border colour of a complete, write-free frame; ends right after a wrap
+fn settle(e: &mut Emu, m128: bool, colour: u8) {
+    run_to_frame_end(e, m128);
+    out_at(e, 100, colour);
+    let mut r = RegsView::default();
+    r.pc = IDLE;
+    r.sp = 0xBF00;
+    rig::set_regs(e.verif_cpu(), &r);
+    run_to_frame_end(e, m128);
+    run_to_frame_end(e, m128);
+}
+
+/// Compare the completed border buffer with the beam model. `writes`: (w0, w1, colour) in frame order.
+fn compare(ctx: &Ctx, e: &Emu, m128: bool, initial: u8, writes: &[(i64, i64, u8)], case: serde_json::Value, family: &str) -> u64 {
+    let sp = spec(m128);
+    let b = rig::border(e);
+    let mut judged = 0u64;
+    for y in 0..H {
+        for x in 0..W {
+            if !is_border(x, y) {
+                continue;
+            }
+            let t2 = pixel_t2(&sp, x, y);
+            let mut expect = initial;
+            let mut unjudged = false;
+            for (w0, w1, c) in writes {
+                if t2 > 2 * (*w1 + 8) {
+                    expect = *c;
+                } else if t2 >= 2 * (*w0 - 8) {
+                    unjudged = true;
+                    break;
+                }
+            }
+            if unjudged {
+                continue;
+            }
+            judged += 1;
+            let got = b.pix[y * W + x] & 7;
+            if got != expect {
+                ctx.violation(
+                    &format!("C09:{}:{}", family, if m128 { "128k" } else { "48k" }),
+                    &format!(
+                        "{} machine, {}: border pixel ({},{}) (beam time T={}) shows colour {}, the colour last written before the beam got there is {} (writes: {:?}, initial {})",
+                        if m128 { "128K" } else { "48K" }, family, x, y, t2 / 2, got, expect, writes, initial
+                    ),
+                    case,
+                );
+                return judged;
+            }
+        }
+    }
+    judged
+}
+
+fn single_writes(ctx: &Ctx, m128: bool, ts: &[usize]) {
+    let chunks = 64usize;
+    par_for_with(
+        chunks,
+        1,
+        || machine(m128),
+        |e, c| {
+            let lo = c * ts.len() / chunks;
+            let hi = (c + 1) * ts.len() / chunks;
+            let mut colour = 1u8;
+            settle(e, m128, colour);
+            for &t in &ts[lo..hi] {
+                let old = colour;
+                colour = (colour % 7) + 1;
+                // we are right after a wrap (idle loop, a few T into the frame)
+                let start = e.verif_frame_clocks();
+                if t < start + 1 {
+                    // the write would be before "now": take it in the following frame position anyway
+                }
+                let (w0, w1) = out_at(e, t.max(start), colour);
+                let wrapped = w1 >= 1_000_000;
+                let reported: u8 = e.border_color().into();
+                if reported != colour {
+                    ctx.violation("C09:border_color-report", &format!("border_color() reports {} after OUT (FE),{}", reported, colour), json!({"kind":"single","m128":m128,"t":t}));
+                }
+                if wrapped {
+                    // the write landed in the next frame: the frame just completed has no write
+                    compare(ctx, e, m128, old, &[], json!({"kind":"single","m128":m128,"t":t}), "single-write-at-wrap");
+                    run_to_frame_end(e, m128);
+                    compare(ctx, e, m128, old, &[(w1 - 1_000_000 - 4, w1 - 1_000_000, colour)], json!({"kind":"single","m128":m128,"t":t}), "single-write-at-wrap");
+                } else {
+                    run_to_frame_end(e, m128);
+                    let j = compare(ctx, e, m128, old, &[(w0, w1, colour)], json!({"kind":"single","m128":m128,"t":t}), "single-write");
+                    ctx.outcome(j ^ ((colour as u64) << 32));
+                }
+                // a write-free frame now shows the new colour everywhere
+                run_to_frame_end(e, m128);
+                compare(ctx, e, m128, colour, &[], json!({"kind":"single","m128":m128,"t":t}), "frame-without-write");
+                ctx.add_eval(1);
+            }
+        },
+    );
+}
+
+fn pair_writes(ctx: &Ctx, m128: bool, step: usize) {
+    let sp = spec(m128);
+    let line = sp.line as usize;
+    // three line positions: top border, picture line, bottom border; lines start at the left edge of the buffer
+    let bases: Vec<usize> = [10usize, 120, 230].iter().map(|y| (sp.first_pixel as usize + (*y) * line) - 24 * line - 16).collect();
+    let mut jobs: Vec<(usize, usize, usize)> = Vec::new();
+    for b in bases.iter() {
+        let mut t1 = 0;
+        while t1 < line {
+            let mut t2 = t1 + 12;
+            while t2 < line + 24 {
+                jobs.push((*b, t1, t2));
+                t2 += step;
+            }
+            t1 += step;
+        }
+    }
+    let n = jobs.len();
+    let chunks = 64usize.min(n.max(1));
+    par_for_with(
+        chunks,
+        1,
+        || machine(m128),
+        |e, c| {
+            settle(e, m128, 7);
+            for k in (c * n / chunks)..((c + 1) * n / chunks) {
+                let (b, t1, t2) = jobs[k];
+                let (a0, a1) = out_at(e, b + t1, 2);
+                // the second OUT cannot start before the first instruction has ended
+                let second = (b + t2).max(e.verif_frame_clocks());
+                let (b0, b1) = out_at(e, second, 5);
+                run_to_frame_end(e, m128);
+                let j = compare(ctx, e, m128, 7, &[(a0, a1, 2), (b0, b1, 5)], json!({"kind":"pair","m128":m128,"base":b,"t1":t1,"t2":t2}), "two-writes-in-a-line");
+                ctx.outcome(j ^ 0x5151);
+                ctx.add_eval(1);
+                // back to white for the next case
+                out_at(e, 200, 7);
+                run_to_frame_end(e, m128);
+                run_to_frame_end(e, m128);
+            }
+        },
+    );
+}
+
+fn snapshot_border(ctx: &Ctx) {
+    for m128 in [false, true] {
+        for b in 0..8u8 {
+            let mut s = MState::new(m128, 1);
+            s.border = b;
+            s.port_fe = b;
+            s.regs.pc = IDLE;
+            s.regs.iff1 = false;
+            s.regs.iff2 = false;
+            s.banks[2][0x1000..0x1003].copy_from_slice(&[0xF3, 0x18, 0xFE]);
+            for (name, snap) in [("sna", Snapshot::Sna(VAsset::new(if m128 { sna128(&s) } else { sna48(&s) }))), ("szx", Snapshot::Szx(VAsset::new(szx(&s, &SzxOpts::default()))))] {
+                let mut e = machine(m128);
+                settle(&mut e, m128, (b + 3) % 8);
+                if e.load_snapshot(snap).is_err() {
+                    continue;
+                }
+                ctx.add_eval(1);
+                let got: u8 = e.border_color().into();
+                if got != b {
+                    ctx.violation(
+                        &format!("C09:snapshot-border:{}:border_color", name),
+                        &format!("{} snapshot with border {} loaded: border_color() reports {}", name, b, got),
+                        json!({"kind":"snapshot","m128":m128,"border":b}),
+                    );
+                    continue;
+                }
+                // (SZX also replays the last port FE value; this case uses the same colour for both)
+                run_to_frame_end(&mut e, m128);
+                run_to_frame_end(&mut e, m128);
+                compare(ctx, &e, m128, b, &[], json!({"kind":"snapshot","m128":m128,"border":b,"format":name}), &format!("snapshot-border:{}", name));
+            }
+        }
+    }
+}
+
+fn tset(sp: &UlaSpec, quick: bool) -> Vec<usize> {
+    if !quick {
+        return (8..sp.frame as usize - 8).collect();
+    }
+    let line = sp.line as usize;
+    let top = sp.first_pixel as usize - 24 * line - 16;
+    let mut v: Vec<usize> = Vec::new();
+    v.extend(8..72);
+    for y in [0usize, 24, 120, 215, 239] {
+        v.extend((top + y * line - 16)..(top + y * line + line + 8));
+    }
+    v.extend((sp.frame as usize - 72)..(sp.frame as usize - 8));
+    v.sort();
+    v.dedup();
+    v
+}
+
+pub fn run(tier: Tier, seed: u64, replay: Option<String>) -> i32 {
+    let ctx = Ctx::new("C09", tier, seed, "exploration");
+    let quick = !tier.is_thorough();
+    if let Some(path) = replay {
+        let v: serde_json::Value = serde_json::from_slice(&rig::read_file(&path)).expect("replay json");
+        let c = &v["case"];
+        let m128 = c["m128"].as_bool().unwrap_or(false);
+        match c["kind"].as_str().unwrap_or("") {
+            "single" => single_writes(&ctx, m128, &[c["t"].as_u64().unwrap() as usize]),
+            "pair" => pair_writes(&ctx, m128, 8),
+            _ => snapshot_border(&ctx),
+        }
+        let n = ctx.violation_classes();
+        println!("replay: {} violation class(es) reproduced", n);
+        return (n > 0) as i32;
+    }
+    for m128 in [false, true] {
+        let ts = tset(&spec(m128), quick);
+        ctx.note(if m128 { "write_times_128k" } else { "write_times_48k" }, json!(ts.len()));
+        single_writes(&ctx, m128, &ts);
+        pair_writes(&ctx, m128, if quick { 12 } else { 3 });
+    }
+    snapshot_border(&ctx);
+    ctx.sample(json!({"write":"OUT (FE),2 with the I/O cycle at T=20000..20004","judged":"every border pixel whose beam time is more than 8 T away from the cycle"}));
+    ctx.note("not_judged", json!("pixels within 16 pixels (8 T) of the I/O cycle of a write; the canvas area of the border buffer"));
+    ctx.finish(
+        "one OUT (C),A to port 00FE executed by the emulated CPU with its start at every T of the frame (quick: complete first-visible, first-picture, middle, last-picture and last-visible lines plus both ends of the frame), every ordered pair of OUTs inside one line at three line positions (step 3 T thorough / 12 T quick), a write-free frame after every case, writes straddling the frame wrap, SNA/SZX snapshot borders for all 8 colours; the completed 320x240 border buffer is compared with the beam model (pixel (x,y) at T = first_pixel + (y-24)*line + (x-32)/2) outside an 8-T band around each I/O cycle; border_color() after every write. distinct = (judged pixel count, colour) outcomes",
+        false,
+        &["frame clock placed through the hook; the remaining frame is idle loop", "I/O cycle extent = from 8 T after the OUT starts to the end of the instruction"],
+    )
 }
